@@ -27,6 +27,9 @@ class Ctx:
         # trivial free functions (one block, no calls) are cheaper and more precise inlined than summarised
         for k in list(self.pure):
             b = self.B[k]
+            if b['def_kind'] == 'Closure':
+                self.pure.discard(k)     # closures are part of their parent's logic: always inlined
+                continue
             if b['def_kind'] == 'Fn' and len([x for x in b['blocks'] if not x['cleanup']]) == 1 and \
                     all(x['term']['k'] != 'call' for x in b['blocks']):
                 self.pure.discard(k)
@@ -175,27 +178,26 @@ class Ctx:
         return {('s', selfp, (('f', self.stack_fields()['auto_sync']),)): INT(1 if value else 0)}
 
     def insert_methods(self):
-        """Write-side trait methods that publish: {name: 'publish_replace'|'publish_excl'}; plus the
-        lookup / temp-dir / touch method names, by the effects of their implementations."""
+        """Role of each write-side trait method: the public operation of the plain cache its
+        implementation for that type delegates to (get / set / put / touch / temp_dir)."""
+        if 'insert_methods' in self._roles:
+            return self._roles['insert_methods']
         wt = self.role('write_trait')
+        tr = self.traits[wt]
         out = {}
-        for m in self.traits[wt]['methods']:
-            effs = set()
-            for k in self.cg.impl_targets(wt, m['name']):
-                effs |= self.cg.effects(k)
-            if 'publish_replace' in effs:
-                out[m['name']] = 'set'
-            elif 'publish_excl' in effs:
-                out[m['name']] = 'put'
-            elif 'open_ro' in effs:
-                out[m['name']] = 'get'
-            elif 'ns_create_dir' in effs:
-                out[m['name']] = 'temp_dir'
-            elif 'meta_atime' in effs:
-                out[m['name']] = 'touch'
+        for imp in tr['impls']:
+            sty = imp['self_ty_s']
+            for name, k in imp['methods'].items():
+                for c in self.cg.local_edges.get(k, ()):
+                    b = self.B[c]
+                    if b['public'] and b['path'].startswith(sty + '::') and b['name'] in ('get', 'set', 'put', 'touch', 'temp_dir'):
+                        if out.get(name, b['name']) != b['name']:
+                            raise RoleError('write-side method %s has inconsistent roles across implementors' % name)
+                        out[name] = b['name']
         for need in ('set', 'put', 'get', 'temp_dir', 'touch'):
             if need not in out.values():
                 raise RoleError('write-side trait method role %s not found' % need)
+        self._roles['insert_methods'] = out
         return out
 
     def spec_facts(self, entry, checker=None, write_side=None):
@@ -282,35 +284,34 @@ class Ctx:
         return cands[0]
 
     def cachedir_methods(self):
-        """Roles of the cache-directory trait's provided methods, by effect signature."""
+        """Roles of the cache-directory trait's provided methods.  get/set/put/touch/ensure_temp are
+        anchored on the public plain-cache API (the provided method that `plain::Cache::<op>` calls);
+        maintenance methods are the remaining provided methods that list a directory."""
         if 'cachedir_methods' in self._roles:
             return self._roles['cachedir_methods']
-        tr = self.traits[self.role('cachedir_trait')]
+        tp = self.role('cachedir_trait')
+        tr = self.traits[tp]
+        provided = {m['key']: m['name'] for m in tr['methods'] if m.get('key')}
         out = {}
-        for m in tr['methods']:
-            if not m.get('key'):
-                continue
-            eff = self.cg.effects(m['key'])
-            k = m['key']
-            if 'publish_replace' in eff:
-                out.setdefault('set', []).append(k)
-            elif 'publish_excl' in eff:
-                out.setdefault('put', []).append(k)
-            elif 'open_ro' in eff:
-                out.setdefault('get', []).append(k)
-            elif 'meta_atime' in eff and 'list_dir' not in eff:
-                out.setdefault('touch', []).append(k)
-            elif 'list_dir' in eff and 'ns_remove_file' in eff:
-                out.setdefault('maintain', []).append(k)
-            elif 'ns_create_dir' in eff:
-                out.setdefault('ensure_temp', []).append(k)
-        for need in ('set', 'put', 'get', 'touch', 'maintain', 'ensure_temp'):
-            if need not in out:
-                raise RoleError('cache-directory method role %s not found' % need)
-        for one in ('set', 'put', 'get', 'touch', 'ensure_temp'):
-            if len(out[one]) != 1:
-                raise RoleError('cache-directory method role %s ambiguous: %s' % (one, out[one]))
-            out[one] = out[one][0]
+        plain = None
+        for imp in tr['impls']:
+            # the implementor that is a public type with public get/set/put/touch methods
+            if self.facts['adts'].get(imp['self_ty_s'], {}).get('public'):
+                plain = imp['self_ty_s']
+        if plain is None:
+            raise RoleError('no public implementor of the cache-directory trait')
+        for role, api in (('get', 'get'), ('set', 'set'), ('put', 'put'), ('touch', 'touch'), ('ensure_temp', 'temp_dir')):
+            k = self.by_path.get('%s::%s' % (plain, api))
+            if k is None:
+                raise RoleError('public method %s::%s not found' % (plain, api))
+            callees = [c for c in self.cg.local_edges.get(k, ()) if c in provided]
+            if len(callees) != 1:
+                raise RoleError('%s::%s does not delegate to exactly one cache-directory method (%s)' % (plain, api, callees))
+            out[role] = callees[0]
+        used = set(out.values())
+        out['maintain'] = [k for k in provided if k not in used and 'list_dir' in self.cg.effects(k)]
+        if not out['maintain']:
+            raise RoleError('cache-directory maintenance methods not found')
         self._roles['cachedir_methods'] = out
         return out
 
